@@ -4,8 +4,9 @@ import vlib
 
 TARGETS = ["Base/Corr.vo", "Base/Num.vo", "C20/Model.vo", "C20/Corr.vo", "C20/Spec.vo", "C20/SpecTest.vo",
            "C20/ProofsGuard.vo", "C20/ProofsLoud.vo", "C20/ProofsOk.vo", "C20/ProofsTerm.vo", "C20/ProofsRefuted.vo",
-           "C20/ModelSvd.vo", "C20/ProofsSvd.vo", "C20/ProofsView.vo", "C20/Props.vo"]
-PROPS = ["C20/Props.v"]
+           "C20/ModelSvd.vo", "C20/ProofsSvd.vo", "C20/ProofsView.vo", "C20/Props.vo",
+           "C20/ModelRetry.vo", "C20/ProofsRetry.vo", "C20/CorrRetry.vo", "C20/PropsRetry.vo"]
+PROPS = ["C20/Props.v", "C20/PropsRetry.v"]
 PROPOSED = os.path.join(vlib.ROOT, "corpus/C20/known_findings_proposed.json")
 
 PARTIAL = (
@@ -32,8 +33,18 @@ PARTIAL = (
     "a bookkeeping theorem over the coded skeleton holds for every state and body (an exact zero at any diagonal position of "
     "the active block but the last is not skipped: svd_zero_diagonal_not_skipped); it says nothing about convergence of the "
     "Golub-Kahan iteration, and the skeleton is tied to svd.go by the shape of its loop headers (regex) and by the degenerate "
-    "runs, not by a value-level replay. Whether a floating-point convergence loop exits is not decidable by this technique "
-    "(DESIGN 6.2).")
+    "runs, not by a value-level replay. RETRY LOOPS (round 3, ModelRetry/PropsRetry): the back-tracking loop of rprop, newton's "
+    "`t1 *= c` loop and lineSearch's constraint halving are modelled coordinatewise WITH their progress measure: for the coded "
+    "keying every coordinate that moved the rejected trial point is shrunk (rprop_moved_subset_shrunk, every carrier), and in exact "
+    "real arithmetic (0 <= factor < 1) each loop is left after finitely many passes when the trial point is accepted on a box around "
+    "the last valid point (rprop_inner_exits, newton_backtracking_exits, ls_constraints_exits); the variants that shrink another vector "
+    "than the one that moved the point (gradient_old-keyed rprop shrink, newton scaling x2, lineSearch factor 1) are refuted for every "
+    "state; rprop_dense AS WRITTEN is refuted (the keys read the gradient at the rejected trial point). These are exact-arithmetic "
+    "statements about the inner loop only; floating-point underflow of the step is covered by the run-time progress predicate and the "
+    "probe states, not by a theorem. Tie: source-shape regexes for move key / shrink key / factor, plus a bit-exact float replay of "
+    "every logged inner loop that rejected a trial point (CorrRetry.richeck). Hang findings of these loops are matched by the STATE "
+    "the run spins in (fuel probe), never by input family. Whether a floating-point convergence loop exits is not decidable by this "
+    "technique (DESIGN 6.2).")
 
 LOOPS = [
     # (site, cap kind, status)
@@ -47,12 +58,13 @@ LOOPS = [
     ("lineSearch.lineSearch outer loop + zoom", "capped: MaxEval (default 20; bfgs passes 100)", "proved: linesearch_evals_bound (<= MaxEval+2 evaluations for every oracle)"),
     ("lineSearch.lineSearch `for !constraints(alpha_j) { alpha_j *= 0.5 }`", "uncapped", "refuted: ls_constraints_nonterminating_refuted (constraint rejecting every alpha)"),
     ("rprop.rprop main loop", "capped: MaxIterations (default MaxInt: unbounded by default)", "proved: capped_bound"),
-    ("rprop.rprop inner `for { ... step *= eta[1] }`", "uncapped", "refuted: retry_nonterminating_refuted (objective invalid at every trial point)"),
+    ("rprop.rprop inner `for { ... step *= eta[1] }`", "uncapped", "proved for the coded keying (PropsRetry.rprop_moved_subset_shrunk, rprop_inner_exits: exact arithmetic, 0 <= eta[1] < 1, objective valid on a box around x1); refuted when the objective is invalid at x1 itself or eta[1] >= 1 (retry_nonterminating_refuted, F-C20-RPROP-BACKTRACK, matched by probe state); the gradient_old-keyed variant is refuted (rprop_oldkey_backtracking_refuted); keying tied by source regex + bit-exact replay of logged inner loops (CorrRetry.richeck)"),
+    ("rprop.rprop_dense_with_gradient inner loop", "uncapped", "refuted AS WRITTEN: rprop_dense_backtracking_nonterminating_refuted (keys read the gradient at the rejected trial point; F-C20-RPROP-DENSE-TRIALGRAD)"),
     ("gradientDescent.gradientDescent `for { ... }`", "uncapped (no MaxIterations option exists)", "refuted: gd_nonterminating_refuted (x^2, step 1, x0 = 1)"),
     ("bfgs.bfgs main loop", "capped: MaxIterations (default MaxInt: unbounded by default)", "proved: capped_bound; inner lineSearch capped at 100"),
     ("adam.adam main loop", "capped: MaxIterations (default MaxInt: unbounded by default)", "proved: capped_bound"),
     ("newton.newton_root / newton_min main loops", "capped: MaxIterations (default MaxInt: unbounded by default)", "proved: capped_bound"),
-    ("newton inner `for { x2 = x1 - t1; ...; t1 *= c }`", "uncapped", "termination not provable (exits only by floating-point underflow x2 == x1), not refuted; exercised with constraint callbacks that reject every trial point (constraints-x0-only / -x0-point): returns 'line search failed' through the Vequals exit"),
+    ("newton inner `for { x2 = x1 - t1; ...; t1 *= c }`", "uncapped", "proved in exact arithmetic when the constraints accept a box around x1 (PropsRetry.newton_backtracking_exits; the wrong-vector variant is refuted: newton_wrong_vector_refuted); with constraints rejecting every point but x1 it exits only by floating-point underflow x2 == x1; exercised with constraint callbacks that reject every trial point (constraints-x0-only / -x0-point): returns 'line search failed' through the Vequals exit"),
     ("saga.saga* epoch loop", "capped: MaxIterations (default MaxInt: unbounded by default)", "proved: capped_bound (skeleton only; not exercised by the harness)"),
     ("blahut.blahut `for k < steps`", "capped: steps (mandatory argument)", "proved: capped_bound"),
     ("special.SumSeries / SumLogSeries / EvalContinuedFraction", "capped: max_terms", "proved: capped_bound"),
@@ -85,6 +97,22 @@ DEFAULT_CAPS = [
     ("algorithm/svd/svd.go", r"for p, q := 0, 0; (q < n); \{", "q < n", "svd outer loop exit test (uncapped)"),
     ("algorithm/rprop/rprop.go", r"for\s+i\s*:=\s*0\s*;\s*(i\s*<\s*maxIterations\.Value)\s*;", "i < maxIterations.Value",
      "rprop main loop is bounded by MaxIterations (capped_bound applies)"),
+    # shape of the retry loops modelled by coq/C20/ModelRetry.v: which vector keys the move, which keys the shrink, the factor
+    ("algorithm/rprop/rprop.go", r"for \{\s*// update x\s*for i := 0; i < x1\.Dim\(\); i\+\+ \{\s*if (\w+)\[i\] != 0\.0 \{\s*if \1\[i\] > 0\.0 \{\s*x2\.At\(i\)\.SetFloat64\(x1\.Float64At\(i\) - step\[i\]\)\s*\} else \{\s*x2\.At\(i\)\.SetFloat64\(x1\.Float64At\(i\) \+ step\[i\]\)",
+     "gradient_new", "rprop inner loop: the MOVE is keyed by gradient_new (ModelRetry.rc_coded: rgm)"),
+    ("algorithm/rprop/rprop.go", r"\(constraints\.Value != nil && !constraints\.Value\(x2\)\) \{\s*// if the updated is invalid reduce step size\s*for i := 0; i < x1\.Dim\(\); i\+\+ \{\s*if (\w+\[i\] != 0\.0 \{\s*step\[i\] \*= eta\[1\])\s*\}\s*\}\s*\} else \{\s*// new position is valid, exit loop\s*break",
+     "gradient_new[i] != 0.0 {\n            step[i] *= eta[1]", "rprop inner loop: the SHRINK is keyed by gradient_new, factor eta[1] (ModelRetry.rc_coded: rgs = rgm)"),
+    ("algorithm/rprop/rprop.go", r"s, err = f\(x2\)\s*if (err != nil \|\| gradient_is_nan\(s\) \|\|)\s*\(constraints", "err != nil || gradient_is_nan(s) ||",
+     "rprop inner loop: a trial point is rejected on error, NaN gradient or violated constraints"),
+    ("algorithm/rprop/rprop_dense.go", r"if err := evalGradient\(x2, gradient_new\); err != nil \{\s*return x1, err\s*\}\s*if gradient_is_nan\(gradient_new\) \|\|\s*\(constraints\.Value != nil && !constraints\.Value\(x2\)\) \{\s*// if the updated is invalid reduce step size\s*for i := 0; i < x1\.Dim\(\); i\+\+ \{\s*if (\w+\[i\] != 0\.0 \{\s*step\[i\] \*= eta\[1\])",
+     "gradient_new[i] != 0.0 {\n            step[i] *= eta[1]", "rprop_dense inner loop: evalGradient overwrites gradient_new, which keys the shrink (ModelRetry.rprop_dense_inner)"),
+    ("algorithm/newton/newton.go", r"for \{\s*x2\.VsubV\(x1, t1\)\s*if Vequals\(x1, x2\) \{\s*return x1, fmt\.Errorf\(\"line search failed\"\)\s*\}\s*// check constraints\s*if constraints\.Value == nil \|\| constraints\.Value\(x2\) \{\s*// constraints are satisfied\s*break\s*\}\s*// decrease step size\s*(t1\.VmulS\(t1, c\))",
+     "t1.VmulS(t1, c)", "newton_root back-tracking shrinks t1, the vector the trial point is built from (ModelRetry.n_reject)"),
+    ("algorithm/newton/newton.go", r"\} else \{\s*for \{\s*x2\.VsubV\(x1, t1\)\s*if Vequals\(x1, x2\) \{\s*return x1, fmt\.Errorf\(\"line search failed\"\)\s*\}\s*// check constraints\s*if constraints\.Value == nil \|\| constraints\.Value\(x2\) \{\s*break\s*\}\s*// decrease step size\s*(t1\.VmulS\(t1, c\))",
+     "t1.VmulS(t1, c)", "newton_min back-tracking shrinks t1 (ModelRetry.n_reject)"),
+    ("algorithm/newton/newton.go", r"c\s*:=\s*ConstFloat64\((0\.9)\)", "0.9", "newton back-tracking factor c (0 <= c < 1: newton_backtracking_exits)"),
+    ("algorithm/lineSearch/lineSearch.go", r"for !constraints\(alpha_j\) \{\s*(alpha_j \*= 0\.5)\s*\}", "alpha_j *= 0.5",
+     "lineSearch constraint loop halves alpha_j (ModelRetry.ls_inner with factor 1/2)"),
 ]
 
 RID = {"rprop": 1, "bfgs": 2, "adam": 3, "newton-root": 4, "newton-min": 4, "newton-crit": 4, "linesearch": 5, "blahut": 6, "sumseries": 7,
@@ -238,8 +266,48 @@ def term_stage(ctx, binary, fs):
             exact = (c["routine"], c["family"]) in EXACT and o == "returned"
             tcases.append((c, "TC %d %d %d %d %s" % (RID[c["routine"]], c["cap"], max(it, 0), ev,
                                                      "true" if exact else "false")))
+    # rprop inner loop: the progress predicate evaluated on every logged run (retry.go), also on runs that returned
+    prog_known, n_prog = [], 0
+    for r in res:
+        c = r["case"]
+        if c["routine"] in ("rprop", "rprop-dense"):
+            n_prog += 1
+            pg = r.get("prog", "")
+            if not pg or (len(c.get("p") or []) > 2 and c["p"][2] >= 1):
+                continue
+            if c["routine"] == "rprop-dense" and pg.startswith("trial-gradient-zero"):
+                prog_known.append("%s/%s step=%s" % (c["routine"], c["family"], c["p"][0]))
+            elif r["outcome"] != "deadline":      # a hang is reported through its probe state below
+                ctx.violation({"tcase": c, "outcome": r["outcome"], "msg": pg}, True,
+                              "%s on %s: a coordinate that moved the rejected trial point was not shrunk (%s)" % (
+                                  c["routine"], c["family"], pg[:160]))
+    if prog_known:
+        seen.setdefault("F-C20-RPROP-DENSE-TRIALGRAD", [])
+        seen["F-C20-RPROP-DENSE-TRIALGRAD"] += ["progress-log " + x for x in prog_known[:3]]
+    ctx.oblige(1, 1)
     for fid, lst in sorted(seen.items()):
         ctx.known_finding(fid, "%d case(s): %s" % (len(lst), ", ".join(lst[:6])))
+    # bit-exact replay of the logged inner loops against ModelRetry (CorrRetry.richeck)
+    inner = [(r["case"], t) for r in res for t in r.get("inner", [])]
+    if inner:
+        per = 150
+        ipaths = []
+        for k in range(0, len(inner), per):
+            ip = os.path.join(ctx.dir, "retry_cases_%d.v" % (k // per))
+            with open(ip, "w") as f:
+                f.write("From Coq Require Import ZArith List Bool Floats.\nFrom ADV Require Import C20.ModelRetry C20.CorrRetry.\n"
+                        "Import ListNotations.\nDefinition cases : list ADV.C20.CorrRetry.ricase := [\n  ")
+                f.write(";\n  ".join(t for _, t in inner[k:k + per]))
+                f.write("\n].\nDefinition M := Eval vm_compute in (ADV.C20.CorrRetry.rimism cases).\nPrint M.\n")
+            ipaths.append(ip)
+        ibad = eval_and_report(ctx, ipaths, [c for c, _ in inner], per, "rprop inner-loop traces")
+        for c in ibad[:4]:
+            ctx.violation({"tcase": c, "obligation": "C20.CorrRetry.richeck (rprop inner loop, bit-exact)"}, True,
+                          "%s on %s: the logged inner back-tracking loop differs from ModelRetry (trial points / step vectors)" % (
+                              c["routine"], c["family"]))
+        ctx.log("rprop inner-loop traces: %d replayed, %d mismatching" % (len(inner), len(ibad)))
+    ctx.cov.setdefault("extra", {})["rprop_inner"] = {"runs_with_progress_log": n_prog, "traces_replayed": len(inner),
+                                                      "dense_trial_gradient_zero": len(prog_known)}
     # robustness to timing: an unexplained deadline hit is re-run alone with the long deadline before it counts
     confirmed = []
     for r in viol:
@@ -363,8 +431,9 @@ def run(ctx):
     fs = findings()
     ok, failures = vlib.proof_stage(ctx, TARGETS, PROPS)
     thms = vlib.theorem_names(os.path.join(vlib.COQ, "C20/Props.v"))
+    thms2 = vlib.theorem_names(os.path.join(vlib.COQ, "C20/PropsRetry.v"))
     if ok:
-        ctx.cov["print_assumptions"] = vlib.print_assumptions("C20", [("C20.Props", thms)], ctx.dir)
+        ctx.cov["print_assumptions"] = vlib.print_assumptions("C20", [("C20.Props", thms), ("C20.PropsRetry", thms2)], ctx.dir)
     for f in failures:
         ctx.violation({"obligation": f["target"], "lemma": f["lemma"], "errors": f["errors"]}, False,
                       "proof obligation no longer checks: %s %s" % (f["target"], f["lemma"] or ""))
